@@ -14,6 +14,7 @@
 """HTML Tree View (The default view for PyGlove objects)."""
 
 import inspect
+import re
 from typing import Any, Callable, Dict, Iterable, Literal, Optional, Sequence, Tuple, Union
 
 from pyglove.core import utils
@@ -608,7 +609,7 @@ class HtmlTreeView(HtmlView):
             lambda: Html.element(  # pylint: disable=g-long-ternary
                 'div',
                 [
-                    name,
+                    Html.escape(name),
                     key_tooltip_fn(   # pylint: disable=g-long-ternary
                         root_path,
                         name=name,
@@ -628,7 +629,7 @@ class HtmlTreeView(HtmlView):
             Html.element(
                 'div',
                 [
-                    title or make_title(value),
+                    title or Html.escape(make_title(value)),
                 ],
                 css_classes=['summary-title', css_classes],
             ),
@@ -717,7 +718,7 @@ class HtmlTreeView(HtmlView):
         Html.element(
             'span',
             [
-                str(root_path.key),
+                Html.escape(str(root_path.key)),
             ],
             css_classes=[
                 'object-key',
@@ -1305,6 +1306,8 @@ class HtmlTreeView(HtmlView):
       class_name = f'{value.__name__}-class'
     else:
       class_name = type(value).__name__
+    # Class names end up in the `class` attribute: keep CSS identifier chars only.
+    class_name = re.sub(r'[^0-9A-Za-z_-]', '_', class_name)
     return utils.camel_to_snake(class_name, '-')
 
   @staticmethod
